@@ -112,6 +112,7 @@ void gp_test(const char* name)
     {
         const char* indent = gp_current_suite == NULL ? "" : "\t";
         if (gp_test_failed) {
+            GP_VERIF_SCHED_POINT("counter", &gp_tests_failed);
             gp_tests_failed++;
             pf_fprintf(stderr,
             "%s" GP_FAILED_STR " test " GP_CYAN "%s" GP_RESET_TERMINAL "\n", indent, gp_current_test);
@@ -126,6 +127,7 @@ void gp_test(const char* name)
         // No starting message cluttering output
         gp_current_test = name;
         gp_test_failed  = false;
+        GP_VERIF_SCHED_POINT("counter", &gp_test_count);
         gp_test_count++;
     }
 }
